@@ -19,7 +19,9 @@ EXTENDS Naturals, Sequences, FiniteSets, TLC, Json
 CONSTANTS MaxTokens, Emit
 
 \* token kinds
-Core == {"word", "acronym", "roman", "num", "hyphen", "range"}
+\* "alnum": a word that mixes digits and letters ("3D", "4x4", "7th", "Quake3") - the documented rules speak of words and
+\* numbers; such words occur in game names and the checker splits them where letters and digits meet
+Core == {"word", "acronym", "roman", "num", "hyphen", "range", "alnum"}
 VARIABLES shape, done
 vars == <<shape, done>>
 
@@ -30,7 +32,7 @@ Shapes ==
 \* grammar side conditions: a roman numeral is never the first word; a name has at least one alphabetic token
 ShapeOk(s) == /\ s.core[1] # "roman"
               /\ \E i \in 1 .. Len(s.core) : s.core[i] \in {"word", "acronym", "hyphen"}
-              /\ (s.lead => s.core[1] # "num")
+              /\ (s.lead => s.core[1] \notin {"num", "alnum"})
               /\ (s.trail # "none" => s.core[Len(s.core)] \notin {"num", "range"})
               /\ \A i \in 1 .. Len(s.core) - 1 : ~(s.core[i] \in {"num", "range"} /\ s.core[i + 1] \in {"num", "range"})
 
